@@ -28,7 +28,11 @@ const (
 func TestC06(t *testing.T) {
 	rapid.Check(t, func(t *rapid.T) {
 		base := hx.GenTable(t, hx.TableOpt{MinCols: 2, MaxCols: 6, AllowDerived: true})
-		d := hx.GenDerived(t, base, 4)
+		steps := 4
+		if hx.Rarely(t, 600, "blocksize") {
+			base, steps = hx.GenBlockTable(t), 1 // thousands of rows: blocked / unrolled / parallel code paths, remainders
+		}
+		d := hx.GenDerived(t, base, steps)
 		recv := d.QF
 		recvKind := "derived"
 		switch rapid.IntRange(0, 5).Draw(t, "recv") {
